@@ -746,8 +746,15 @@ func actionYAML(ins []inDecl, outs []string) string {
 	}
 	if len(outs) > 0 {
 		b.WriteString("outputs:\n")
-		for _, o := range outs {
-			b.WriteString("  " + yamlKey(o) + ":\n    description: o\n    value: x\n")
+		for i, o := range outs {
+			switch (i + len(o)) % 3 {
+			case 0: // declared by its key only
+				b.WriteString("  " + yamlKey(o) + ":\n")
+			case 1:
+				b.WriteString("  " + yamlKey(o) + ": {}\n")
+			default:
+				b.WriteString("  " + yamlKey(o) + ":\n    description: o\n    value: x\n")
+			}
 		}
 	}
 	b.WriteString("runs:\n  using: composite\n  steps:\n    - run: echo\n      shell: bash\n")
@@ -1238,6 +1245,10 @@ func (r *run) reusable(n int) {
 			mk(sh.tag, sh.with, 2, ssh.with, false)
 		}
 		mk("inherit", req, 1, nil, false)
+		mk("inherit-no-with", nil, 1, nil, false) // `secrets: inherit` waives the secrets only
+		if len(req) > 0 {
+			mk("inherit-one-missing", req[1:], 1, nil, false)
+		}
 		mk("typed", all, 2, allSec, true)
 		mk("typed", all, 1, nil, true)
 		for i := 0; i < 2; i++ {
